@@ -124,6 +124,9 @@ type Node struct {
 	Seen   map[H]bool // vertices ever observed confirmed on this node
 	Closed bool
 	Synced bool // obtained its ledger through LoadDag
+	// MaxDebt: per address the largest negative checkpointed net flow seen at any truncation of this node (the
+	// checkpoint stores 0 instead, so the node sees the wallet richer by at most this much)
+	MaxDebt map[string]*big.Int
 	// Interrupted: the harness cancelled a truncation of this node half way (storage copies of live vertices exist)
 	Interrupted bool
 	// Tainted: addresses whose checkpointed net flow was negative at some truncation on this node
@@ -314,7 +317,7 @@ func (w *World) AddGenesisNode(name string, supply spice.Melange, receiver *Acto
 	if err != nil {
 		return nil, err
 	}
-	n := &Node{Idx: len(w.Nodes), Name: name, Actor: a, Book: b, cancel: cancel, Eval: map[H]*ConfEval{}, Seen: map[H]bool{}, Tainted: map[string]bool{}, Orphans: map[H]bool{}}
+	n := &Node{Idx: len(w.Nodes), Name: name, Actor: a, Book: b, cancel: cancel, Eval: map[H]*ConfEval{}, Seen: map[H]bool{}, Tainted: map[string]bool{}, MaxDebt: map[string]*big.Int{}, Orphans: map[H]bool{}}
 	w.Nodes = append(w.Nodes, n)
 	v, err := b.CreateGenesis("GENESIS", supply, []byte{}, receiver.Addr)
 	if err != nil {
@@ -337,7 +340,7 @@ func (w *World) AddSyncedNode(name string, src *Node) (*Node, error) {
 	if err != nil {
 		return nil, err
 	}
-	n := &Node{Idx: len(w.Nodes), Name: name, Actor: a, Book: b, cancel: cancel, Eval: map[H]*ConfEval{}, Seen: map[H]bool{}, Synced: true, Tainted: map[string]bool{}, Orphans: map[H]bool{}}
+	n := &Node{Idx: len(w.Nodes), Name: name, Actor: a, Book: b, cancel: cancel, Eval: map[H]*ConfEval{}, Seen: map[H]bool{}, Synced: true, Tainted: map[string]bool{}, MaxDebt: map[string]*big.Int{}, Orphans: map[H]bool{}}
 	w.Nodes = append(w.Nodes, n)
 	ctx, cancelCause := context.WithCancelCause(context.Background())
 	ch := src.Book.StreamDAG(ctx)
@@ -361,7 +364,7 @@ func (w *World) AddSyncedNodeVia(name string, src *Node, relay func(in <-chan *a
 	if err != nil {
 		return nil, err
 	}
-	n := &Node{Idx: len(w.Nodes), Name: name, Actor: a, Book: b, cancel: cancel, Eval: map[H]*ConfEval{}, Seen: map[H]bool{}, Synced: true, Tainted: map[string]bool{}, Orphans: map[H]bool{}}
+	n := &Node{Idx: len(w.Nodes), Name: name, Actor: a, Book: b, cancel: cancel, Eval: map[H]*ConfEval{}, Seen: map[H]bool{}, Synced: true, Tainted: map[string]bool{}, MaxDebt: map[string]*big.Int{}, Orphans: map[H]bool{}}
 	w.Nodes = append(w.Nodes, n)
 	ctx, cancelCause := context.WithCancelCause(context.Background())
 	out := make(chan *accountant.Vertex)
@@ -389,7 +392,7 @@ func (w *World) AddLoadedNode(name string, stream []*accountant.Vertex, register
 	if err != nil {
 		return nil, false, err
 	}
-	n := &Node{Idx: len(w.Nodes), Name: name, Actor: a, Book: b, cancel: cancel, Eval: map[H]*ConfEval{}, Seen: map[H]bool{}, Synced: true, Tainted: map[string]bool{}, Orphans: map[H]bool{}}
+	n := &Node{Idx: len(w.Nodes), Name: name, Actor: a, Book: b, cancel: cancel, Eval: map[H]*ConfEval{}, Seen: map[H]bool{}, Synced: true, Tainted: map[string]bool{}, MaxDebt: map[string]*big.Int{}, Orphans: map[H]bool{}}
 	if register {
 		w.Nodes = append(w.Nodes, n)
 	}
